@@ -256,6 +256,7 @@ async fn run_case(d: &mut Driver<8>, kind: Kind, reopened: bool, k: usize, cont_
     }
     // ---- the cancelled operation
     let closed_at_cancel: Vec<usize> = d.model.closed.clone();
+    let not_model_at_cancel = d.model.clone();
     let mut not_model = d.model.clone();
     let mut applied_model = d.model.clone();
     let val = d.fresh_val();
@@ -467,6 +468,31 @@ async fn run_case(d: &mut Driver<8>, kind: Kind, reopened: bool, k: usize, cont_
                 bail!("further-ops", m);
             }
         }
+        // ---- a cancelled delete takes effect entirely or not at all: the blob files show directly which of the
+        // blobs it had to mark hold its marker (timestamp 5). No operation is in flight any more at this point
+        if out.dropped {
+            if let Some(Op::Del { k: dk, only_if, .. }) = kind.op() {
+                let key = crate::drive::key_bytes(d.cfg.key_salt, dk, 8);
+                let has_marker = |id: usize| crate::parse::parse_blob_file(&d.dir.join(format!("t.{}.blob", id))).map(|bp| bp.records.iter().any(|r| r.deleted() && r.ts == 5 && r.key == key)).unwrap_or(false);
+                let closed_due: Vec<usize> = closed_at_cancel.iter().copied().filter(|c| not_model_at_cancel.blob_live(*c, dk)).collect();
+                let closed_marked = closed_due.iter().filter(|c| has_marker(**c)).count();
+                let active_ids: Vec<usize> = d.dir_blob_ids().into_iter().filter(|id| !closed_at_cancel.contains(id)).collect();
+                let active_marked = active_ids.iter().any(|id| has_marker(*id));
+                let active_due = !only_if || not_model_at_cancel.active.map(|a| not_model_at_cancel.blob_live(a, dk)).unwrap_or(false);
+                let all = closed_marked == closed_due.len() && (active_marked || !active_due);
+                let none = closed_marked == 0 && !active_marked;
+                if !all && !none {
+                    let pattern = marker_pattern(d, &closed_at_cancel, dk);
+                    out.violation = Some((format!("cancelled-delete-partial/{}", pattern), format!("the cancelled delete of k{} marked {} of the {} closed blobs in which the key is live; active blob marked: {} (due: {})", dk, closed_marked, closed_due.len(), active_marked, active_due)));
+                    if let Some(s) = d.storage.take() {
+                        let _ = tokio::time::timeout(Duration::from_secs(5), s.close()).await;
+                    }
+                    let _ = tap::disarm(&dir);
+                    out.compared = d.stats.compared;
+                    return out;
+                }
+            }
+        }
         // ---- restart, index kept: may stay, or switch from not-applied to applied
         if let Err(m) = d.close().await {
             bail!("close", m);
@@ -587,14 +613,19 @@ pub fn shard(ctx: &Ctx) -> Shard {
                         } else {
                             sh.max(&format!("max_suspension_points_{:?}_{}", kind, if *mt { "mt" } else { "ct" }), out.pendings as u64);
                         }
+                        if std::env::var("PV_DEBUG_C14").is_ok() && matches!(kind, Kind::DelActive | Kind::DelOnlyIfActive | Kind::DelClosed | Kind::DelNoActive) {
+                            eprintln!("[c14] {} dropped={} outcome={} violation={:?}", tag, out.dropped, out.outcome, out.violation.as_ref().map(|v| v.0.clone()));
+                        }
                         if let Some((sig, detail)) = out.violation {
                             let is_del = matches!(kind, Kind::DelActive | Kind::DelOnlyIfActive | Kind::DelClosed | Kind::DelNoActive);
-                            let (sig, detail) = if is_del && out.dropped && sig.starts_with("further-ops/delete-count") {
+                            let (sig, detail) = if is_del && out.dropped && sig.starts_with("cancelled-delete-partial/") {
+                                (format!("cancelled-delete-applied-to-a-subset-of-blobs/{}", sig.rsplit('/').next().unwrap_or("")), detail)
+                            } else if is_del && out.dropped && sig.starts_with("further-ops/delete-count") {
                                 // the direction is part of the identity: on this tree the marker of the active blob is written
                                 // first, so a half-applied delete leaves closed blobs unmarked ("more" blobs marked later than
                                 // the not-applied model... or "fewer" than the applied one); another order of the steps would
                                 // show up under another signature
-                                (format!("cancelled-delete-applied-to-a-subset-of-blobs/{}", sig.splitn(3, '/').nth(2).unwrap_or("")), format!("a later delete of the same key marks a different number of blobs than after a complete or absent delete ({})", detail))
+                                (format!("cancelled-delete-applied-to-a-subset-of-blobs/{}", sig.rsplit('/').next().unwrap_or("")), format!("a later delete of the same key marks a different number of blobs than after a complete or absent delete ({})", detail))
                             } else {
                                 (sig, detail)
                             };
